@@ -58,6 +58,10 @@ CHECKS = {
          "Over the enumerated domains val2bytes/bytes2val are inverses with the type's width, out-of-range values are refused, nomval encodes to zeros, calc_checksum/isvalid_checksum equal the reference Fletcher, and utc2itow/itow2utc, val2sphp, get_bits, protocol, att2idx/att2name satisfy their consistency laws.",
          "interior values of 3..8-byte types outside the lattice are not enumerated; NaN payloads compared modulo quieting (O13); known finding: wrong-length C values accepted.",
          "DESIGN.md §5 C18"),
+ "C14": ("bounded exhaustive exploration of config_set/config_del/config_poll and the CFG-VALSET/CFG-VALGET parser over every database key x addressing x value sets x list lengths 0..64(+) x header values x unknown IDs; oracle = reference config-db codec",
+         "For every key, both addressings, every enumerated value, list and header, the helpers emit exactly header + LE32 key IDs (+ values at the size-code width), refuse more than 64 items and out-of-range values, and parsing the payload as CFG-VALSET or CFG-VALGET response exposes one correctly named attribute per key with its value; name/ID lookups agree.",
+         "reference codec in the check; 4/8-byte values on boundary sets; aliases resolve to the first database name.",
+         "DESIGN.md §5 C14"),
 }
 NOT_YET = "check not built yet in this round (planned: see DESIGN.md §5)"
 
